@@ -1,8 +1,9 @@
 package main
 
 // Replay of a solver model against the real code: the model's parameter
-// values become a Go test that is injected into the package with
-// `go test -overlay` (nothing is written to /repo).
+// values (scalars, strings, slices, pointers to scalars / slices / arrays /
+// structs, struct values) become a Go test that is injected into the package
+// with `go test -overlay` (nothing is written to /repo).
 
 import (
 	"bytes"
@@ -15,6 +16,7 @@ import (
 	"os"
 	"os/exec"
 	"path/filepath"
+	"sort"
 	"strings"
 	"time"
 )
@@ -137,7 +139,7 @@ func getValues(queryFile string, extraAsserts []string, terms []string, dir, nam
 	for _, a := range extraAsserts {
 		sb.WriteString("(assert " + a + ")\n")
 	}
-	sb.WriteString("(check-sat)\n(get-value (" + strings.Join(terms, " ") + "))\n")
+	sb.WriteString("(check-sat)\n(get-value (" + strings.Join(terms, "\n ") + "))\n")
 	p := filepath.Join(dir, name+".gv.smt2")
 	os.WriteFile(p, []byte(sb.String()), 0o644)
 	ctx, cancel := context.WithTimeout(context.Background(), 30*time.Second)
@@ -171,18 +173,18 @@ type replayParam struct {
 	V    Val
 }
 
-const maxReplayElems = 1 << 16
+const replayElems = 160 // elements of a slice / bytes of a string read back from the model
 
-// entryHeap names the entry version of a heap key, or a constant that does
-// not occur in any query when the function never touched that key.
+// entryHeap names the entry version of a heap key, or "" when the function
+// never read that key at entry (its contents are then irrelevant).
 func (c *FnCtx) entryHeap(key string) string {
 	if _, ok := c.heapSort[key]; !ok {
-		return "H_unused_" + key
+		return ""
 	}
 	if t, ok := c.entry.ep.cache[key]; ok {
 		return t
 	}
-	return "H_unused_" + key
+	return ""
 }
 
 func safeReplay(eng *Engine, o *Obligation, dir, name string) (rec map[string]interface{}) {
@@ -194,57 +196,466 @@ func safeReplay(eng *Engine, o *Obligation, dir, name string) (rec map[string]in
 	return tryReplay(eng, o, dir, name)
 }
 
-// tryReplay builds and runs the test. Only functions whose parameters are
-// integers, booleans, strings, slices of integers and pointers to arrays of
-// integers are replayed; anything else yields no replay.
-func tryReplay(eng *Engine, o *Obligation, dir, name string) map[string]interface{} {
-	c := o.ctx
-	if c == nil || o.queryFile == "" || len(c.replayParams) == 0 && len(c.fn.Params) > 0 {
-		return nil
+// rb builds the Go values of one replay.
+type rb struct {
+	c      *FnCtx
+	pkg    *types.Package
+	terms  []string
+	seen   map[string]bool
+	vals   map[string]*sexp
+	query  []byte
+	fail   string
+	lines  []string          // statements, in order
+	ctr    int
+	extent map[string]int64  // object key -> needed backing length
+	backed map[string]string // object key -> backing variable
+	cells  map[string]string // pointer object key -> variable holding the pointee
+	strVar map[string]string // abstract string value / term -> Go expression
+	strs   []string          // string terms seen
+	small  []string          // smallness constraints
+	inputs map[string]interface{}
+	imports map[string]string
+}
+
+func (b *rb) want(t string) {
+	if t == "" || b.seen[t] {
+		return
 	}
-	fn := c.fn
-	if fn.Signature.Recv() != nil || fn.Pkg == nil {
-		return map[string]interface{}{"confirmed": false, "reason": "methods are not replayed automatically"}
-	}
-	// pass 1: scalars and slice headers
-	var terms []string
-	for _, p := range c.replayParams {
-		switch p.V.K {
-		case kInt, kBool:
-			terms = append(terms, p.V.S)
-		case kStr:
-			terms = append(terms, sx("slen", p.V.S))
-		case kSlice:
-			terms = append(terms, p.V.Ref, p.V.Off, p.V.Len, p.V.Cap)
-		case kPtr:
-			terms = append(terms, p.V.Ref)
-		case kFunc, kIface, kOpaque, kMap:
-			// passed as a fixed stand-in below
-		default:
-			return map[string]interface{}{"confirmed": false, "reason": fmt.Sprintf("parameter %s of unsupported kind", p.Name)}
+	// a heap constant that is not declared in the query cannot be evaluated
+	for _, w := range strings.FieldsFunc(t, func(r rune) bool { return r == '(' || r == ')' || r == ' ' }) {
+		if strings.HasPrefix(w, "H_") || strings.HasPrefix(w, "MD_") || strings.HasPrefix(w, "MV_") {
+			if !bytes.Contains(b.query, []byte("declare-const "+w+" ")) && !bytes.Contains(b.query, []byte("define-fun "+w+" ")) {
+				return
+			}
 		}
 	}
-	if len(terms) == 0 {
-		terms = append(terms, "0")
+	b.seen[t] = true
+	b.terms = append(b.terms, t)
+}
+
+func (b *rb) cell(root types.Type, path []int, sort, ref, idx string) string {
+	h := b.c.entryHeap(heapKey(root, path))
+	if h == "" {
+		return ""
 	}
-	// prefer small models: try progressively weaker size limits
-	var vals map[string]*sexp
-	ok := false
-	for _, lim := range []int64{64, 4096, 1 << 20, 0} {
-		var small []string
-		if lim > 0 {
-			for _, p := range c.replayParams {
-				switch p.V.K {
-				case kInt:
-					small = append(small, and(sx("<=", num(-lim), p.V.S), sx("<=", p.V.S, num(lim))))
-				case kSlice:
-					small = append(small, sx("<=", p.V.Cap, num(lim)), sx("<=", p.V.Off, num(lim)))
-				case kStr:
-					small = append(small, sx("<=", sx("slen", p.V.S), num(lim)))
+	return sx("select", sx("select", h, ref), idx)
+}
+
+// collect registers every term needed to rebuild a value of type t.
+func (b *rb) collect(v Val, t types.Type, depth int) {
+	if depth > 4 {
+		return
+	}
+	switch v.K {
+	case kInt:
+		b.want(v.S)
+		if depth == 0 {
+			b.small = append(b.small, v.S)
+		}
+	case kBool:
+		b.want(v.S)
+	case kStr:
+		b.want(v.S)
+		b.want(sx("slen", v.S))
+		for i := 0; i < replayElems; i++ {
+			b.want(sx("sat", v.S, num(int64(i))))
+		}
+		b.strs = append(b.strs, v.S)
+	case kSlice:
+		b.want(v.Ref)
+		b.want(v.Off)
+		b.want(v.Len)
+		b.want(v.Cap)
+		el := v.Root
+		if kindOf(el) == kInt || kindOf(el) == kBool || kindOf(el) == kStr {
+			for i := 0; i < replayElems; i++ {
+				ct := b.cell(el, nil, sortOf(el), v.Ref, add(v.Off, num(int64(i))))
+				if ct != "" {
+					b.collect(fromTerm(el, ct), el, depth+1)
 				}
 			}
 		}
-		vals, ok = getValues(o.queryFile, small, terms, dir, name+".1")
+	case kPtr:
+		b.want(v.Ref)
+		b.want(v.Idx)
+		b.collectPointee(v, pointeeOfVal(v), depth)
+	case kStruct:
+		st := mustStruct(t)
+		for i, f := range v.Fields {
+			b.collect(f, st.Field(i).Type(), depth+1)
+		}
+	}
+}
+
+func (b *rb) collectPointee(p Val, pt types.Type, depth int) {
+	switch u := pt.Underlying().(type) {
+	case *types.Array:
+		el := u.Elem()
+		if kindOf(el) == kInt || kindOf(el) == kBool {
+			n := u.Len()
+			if n > 256 {
+				n = 256
+			}
+			for i := int64(0); i < n; i++ {
+				ct := b.cell(el, nil, sortOf(el), p.Ref, add(p.Idx, num(i)))
+				if ct != "" {
+					b.collect(fromTerm(el, ct), el, depth+1)
+				}
+			}
+		}
+	case *types.Struct:
+		for i := 0; i < u.NumFields(); i++ {
+			ft := u.Field(i).Type()
+			fp := b.c.fieldAddr(Val{K: kPtr, T: types.NewPointer(pt), Ref: p.Ref, Idx: p.Idx, Root: p.Root, Path: p.Path}, i, types.NewPointer(ft))
+			switch ft.Underlying().(type) {
+			case *types.Array, *types.Struct:
+				b.collectPointee(fp, ft, depth+1)
+			default:
+				if kindOf(ft) == kFunc || kindOf(ft) == kIface || kindOf(ft) == kMap || kindOf(ft) == kOpaque {
+					continue
+				}
+				ct := b.cell(fp.Root, fp.Path, sortOf(ft), fp.Ref, fp.Idx)
+				if ct != "" {
+					b.collect(fromTerm(ft, ct), ft, depth+1)
+				}
+			}
+		}
+	default:
+		k := kindOf(pt)
+		if k == kInt || k == kBool || k == kStr || k == kSlice || k == kPtr {
+			ct := b.cell(p.Root, p.Path, sortOf(pt), p.Ref, p.Idx)
+			if ct != "" {
+				b.collect(fromTerm(pt, ct), pt, depth+1)
+			}
+		}
+	}
+}
+
+func (b *rb) intv(t string) (int64, bool) {
+	n, ok := sexpInt(b.vals[t])
+	if !ok || !n.IsInt64() {
+		return 0, false
+	}
+	return n.Int64(), true
+}
+
+func (b *rb) qual(t types.Type) string {
+	return types.TypeString(t, func(p *types.Package) string {
+		if p == b.pkg {
+			return ""
+		}
+		if b.imports == nil {
+			b.imports = map[string]string{}
+		}
+		b.imports[p.Path()] = p.Name()
+		return p.Name()
+	})
+}
+
+func (b *rb) newVar(prefix string) string {
+	b.ctr++
+	return fmt.Sprintf("%s%d", prefix, b.ctr)
+}
+
+func (b *rb) stmt(format string, a ...interface{}) {
+	b.lines = append(b.lines, "\t"+fmt.Sprintf(format, a...))
+}
+
+// strExpr: Go expression for a string term. Equal abstract values yield the
+// same Go string; distinct abstract values with equal contents are kept
+// distinct by falling back to unique names (identity matters more).
+func (b *rb) strExpr(term string) string {
+	if e, ok := b.strVar[term]; ok {
+		return e
+	}
+	return `""`
+}
+
+func (b *rb) resolveStrings() {
+	byAbs := map[string]string{}
+	content := map[string]string{}
+	collide := false
+	for _, t := range b.strs {
+		abs := "?"
+		if v, ok := b.vals[t]; ok {
+			abs = v.String()
+		}
+		var bs []byte
+		if n, ok := b.intv(sx("slen", t)); ok && n >= 0 {
+			if n > replayElems {
+				n = replayElems
+			}
+			for j := int64(0); j < n; j++ {
+				ch := byte('a')
+				if cv, ok := b.intv(sx("sat", t, num(j))); ok {
+					ch = byte(cv)
+				}
+				bs = append(bs, ch)
+			}
+		}
+		if prev, ok := byAbs[abs]; ok && prev != string(bs) {
+			collide = true
+		}
+		for a2, c2 := range byAbs {
+			if a2 != abs && c2 == string(bs) {
+				collide = true
+			}
+		}
+		byAbs[abs] = string(bs)
+		content[t] = string(bs)
+	}
+	for _, t := range b.strs {
+		if collide {
+			abs := "?"
+			if v, ok := b.vals[t]; ok {
+				abs = v.String()
+			}
+			b.strVar[t] = fmt.Sprintf("%q", "v_"+sanitize(abs))
+		} else {
+			b.strVar[t] = fmt.Sprintf("%q", content[t])
+		}
+	}
+}
+
+func objKey(ref int64, el types.Type) string { return fmt.Sprintf("%d/%s", ref, typeName(el)) }
+
+// scan computes the extent each shared object needs.
+func (b *rb) scan(v Val, t types.Type, depth int) {
+	if depth > 4 {
+		return
+	}
+	switch v.K {
+	case kSlice:
+		ref, _ := b.intv(v.Ref)
+		off, _ := b.intv(v.Off)
+		cp, _ := b.intv(v.Cap)
+		if ref != 0 {
+			k := objKey(ref, v.Root)
+			if off+cp > b.extent[k] {
+				b.extent[k] = off + cp
+			}
+		}
+	case kStruct:
+		st := mustStruct(t)
+		for i, f := range v.Fields {
+			b.scan(f, st.Field(i).Type(), depth+1)
+		}
+	case kPtr:
+		pt := pointeeOfVal(v)
+		if kindOf(pt) == kSlice {
+			ct := b.cell(v.Root, v.Path, "Slice", v.Ref, v.Idx)
+			if ct != "" {
+				b.scan(fromTerm(pt, ct), pt, depth+1)
+			}
+		}
+	}
+}
+
+// expr builds the Go expression of a value.
+func (b *rb) expr(v Val, t types.Type, depth int) string {
+	if b.fail != "" {
+		return "nil"
+	}
+	if depth > 4 {
+		return b.zeroExpr(t)
+	}
+	switch v.K {
+	case kInt:
+		n, ok := sexpInt(b.vals[v.S])
+		if !ok {
+			n = big.NewInt(0)
+		}
+		return fmt.Sprintf("%s(%s)", b.qual(t), n.String())
+	case kBool:
+		if x, ok := b.vals[v.S]; ok && x.atom == "true" {
+			return b.qual(t) + "(true)"
+		}
+		return b.qual(t) + "(false)"
+	case kStr:
+		return fmt.Sprintf("%s(%s)", b.qual(t), b.strExpr(v.S))
+	case kSlice:
+		ref, _ := b.intv(v.Ref)
+		if ref == 0 {
+			return fmt.Sprintf("%s(nil)", b.qual(t))
+		}
+		off, _ := b.intv(v.Off)
+		ln, _ := b.intv(v.Len)
+		cp, _ := b.intv(v.Cap)
+		if cp > 1<<16 || off > 1<<16 || ln < 0 || cp < ln {
+			b.fail = "slice too large to build"
+			return "nil"
+		}
+		el := v.Root
+		k := objKey(ref, el)
+		bk, ok := b.backed[k]
+		if !ok {
+			bk = b.newVar("bk")
+			b.backed[k] = bk
+			ext := b.extent[k]
+			if ext < off+cp {
+				ext = off + cp
+			}
+			b.stmt("%s := make([]%s, %d)", bk, b.qual(el), ext)
+		}
+		if kindOf(el) == kInt || kindOf(el) == kBool || kindOf(el) == kStr {
+			for i := int64(0); i < cp && i < replayElems; i++ {
+				ct := b.cell(el, nil, sortOf(el), v.Ref, add(v.Off, num(i)))
+				if ct == "" || !b.seen[ct] && kindOf(el) != kStr {
+					continue
+				}
+				ev := b.expr(fromTerm(el, ct), el, depth+1)
+				if ev != b.zeroExpr(el) {
+					b.stmt("%s[%d] = %s", bk, off+i, ev)
+				}
+			}
+		}
+		return fmt.Sprintf("%s(%s[%d:%d:%d])", b.qual(t), bk, off, off+ln, off+cp)
+	case kStruct:
+		st := mustStruct(t)
+		var fs []string
+		for i, f := range v.Fields {
+			ft := st.Field(i).Type()
+			switch kindOf(ft) {
+			case kFunc, kIface, kMap, kOpaque:
+				continue
+			}
+			fs = append(fs, fmt.Sprintf("%s: %s", st.Field(i).Name(), b.expr(f, ft, depth+1)))
+		}
+		return fmt.Sprintf("%s{%s}", b.qual(t), strings.Join(fs, ", "))
+	case kArray:
+		return b.zeroExpr(t)
+	case kPtr:
+		ref, _ := b.intv(v.Ref)
+		if ref == 0 {
+			return fmt.Sprintf("(%s)(nil)", b.qual(t))
+		}
+		idx, _ := b.intv(v.Idx)
+		pt := pointeeOfVal(v)
+		k := fmt.Sprintf("%d/%d/%s", ref, idx, typeName(pt))
+		cv, ok := b.cells[k]
+		if !ok {
+			cv = b.newVar("cell")
+			b.cells[k] = cv
+			b.stmt("var %s %s = %s", cv, b.qual(pt), b.pointeeExpr(v, pt, depth+1))
+		}
+		return fmt.Sprintf("(%s)(&%s)", b.qual(t), cv)
+	}
+	b.fail = fmt.Sprintf("value of kind %d cannot be rebuilt", v.K)
+	return "nil"
+}
+
+func (b *rb) zeroExpr(t types.Type) string {
+	switch kindOf(t) {
+	case kInt:
+		return fmt.Sprintf("%s(0)", b.qual(t))
+	case kBool:
+		return fmt.Sprintf("%s(false)", b.qual(t))
+	case kStr:
+		return fmt.Sprintf("%s(\"\")", b.qual(t))
+	case kStruct, kArray:
+		return b.qual(t) + "{}"
+	case kSlice:
+		return fmt.Sprintf("%s(nil)", b.qual(t))
+	case kPtr:
+		return fmt.Sprintf("(%s)(nil)", b.qual(t))
+	}
+	return "nil"
+}
+
+// pointeeExpr: value stored at pointer p (type pt) in the entry heap.
+func (b *rb) pointeeExpr(p Val, pt types.Type, depth int) string {
+	switch u := pt.Underlying().(type) {
+	case *types.Array:
+		el := u.Elem()
+		if kindOf(el) != kInt && kindOf(el) != kBool {
+			return b.zeroExpr(pt)
+		}
+		var es []string
+		n := u.Len()
+		for i := int64(0); i < n && i < 256; i++ {
+			ct := b.cell(el, nil, sortOf(el), p.Ref, add(p.Idx, num(i)))
+			if ct == "" {
+				es = append(es, b.zeroExpr(el))
+				continue
+			}
+			es = append(es, b.expr(fromTerm(el, ct), el, depth+1))
+		}
+		return fmt.Sprintf("%s{%s}", b.qual(pt), strings.Join(es, ", "))
+	case *types.Struct:
+		var fs []string
+		for i := 0; i < u.NumFields(); i++ {
+			ft := u.Field(i).Type()
+			fp := b.c.fieldAddr(Val{K: kPtr, T: types.NewPointer(pt), Ref: p.Ref, Idx: p.Idx, Root: p.Root, Path: p.Path}, i, types.NewPointer(ft))
+			var fe string
+			switch ft.Underlying().(type) {
+			case *types.Array, *types.Struct:
+				fe = b.pointeeExpr(fp, ft, depth+1)
+			default:
+				switch kindOf(ft) {
+				case kFunc, kIface, kMap, kOpaque:
+					continue
+				}
+				ct := b.cell(fp.Root, fp.Path, sortOf(ft), fp.Ref, fp.Idx)
+				if ct == "" {
+					continue
+				}
+				fe = b.expr(fromTerm(ft, ct), ft, depth+1)
+			}
+			fs = append(fs, fmt.Sprintf("%s: %s", u.Field(i).Name(), fe))
+		}
+		return fmt.Sprintf("%s{%s}", b.qual(pt), strings.Join(fs, ", "))
+	}
+	ct := b.cell(p.Root, p.Path, sortOf(pt), p.Ref, p.Idx)
+	if ct == "" {
+		return b.zeroExpr(pt)
+	}
+	return b.expr(fromTerm(pt, ct), pt, depth)
+}
+
+// tryReplay builds and runs the test for a failed obligation with a model.
+func tryReplay(eng *Engine, o *Obligation, dir, name string) map[string]interface{} {
+	c := o.ctx
+	if c == nil || o.queryFile == "" {
+		return nil
+	}
+	fn := c.fn
+	if fn.Pkg == nil {
+		return nil
+	}
+	qb, _ := os.ReadFile(o.queryFile)
+	b := &rb{c: c, pkg: fn.Pkg.Pkg, seen: map[string]bool{}, query: qb, extent: map[string]int64{}, backed: map[string]string{}, cells: map[string]string{}, strVar: map[string]string{}, inputs: map[string]interface{}{}}
+	saved := c.quiet
+	c.quiet = true
+	defer func() { c.quiet = saved }()
+	for _, p := range c.replayParams {
+		switch p.V.K {
+		case kFunc, kIface, kOpaque, kMap:
+			if c.con.ReplayArgs[p.Name] == "" {
+				return map[string]interface{}{"confirmed": false, "reason": fmt.Sprintf("parameter %s (%s) needs a replay_arg stand-in", p.Name, p.T)}
+			}
+			continue
+		}
+		b.collect(p.V, p.T, 0)
+	}
+	if len(b.terms) == 0 {
+		b.terms = append(b.terms, "0")
+	}
+	// prefer small models: progressively weaker size limits
+	ok := false
+	for _, lim := range []int64{16, replayElems, 4096, 1 << 20, 0} {
+		var small []string
+		if lim > 0 {
+			for _, t := range b.terms {
+				switch {
+				case strings.HasPrefix(t, "(scap ") || strings.HasPrefix(t, "(soff ") || strings.HasPrefix(t, "(slen "):
+					small = append(small, sx("<=", t, num(lim)))
+				}
+			}
+			for _, t := range b.small {
+				small = append(small, and(sx("<=", num(-lim), t), sx("<=", t, num(lim))))
+			}
+		}
+		b.vals, ok = getValues(o.queryFile, small, b.terms, dir, name+".1")
 		if ok {
 			break
 		}
@@ -252,267 +663,182 @@ func tryReplay(eng *Engine, o *Obligation, dir, name string) map[string]interfac
 	if !ok {
 		return map[string]interface{}{"confirmed": false, "reason": "model values could not be read back"}
 	}
-	var pins []string
-	for _, t := range terms {
-		if v, ok := vals[t]; ok {
-			pins = append(pins, eq(t, v.String()))
-		}
-	}
-	intOf := func(t string) (int64, bool) {
-		n, ok := sexpInt(vals[t])
-		if !ok || !n.IsInt64() {
-			return 0, false
-		}
-		return n.Int64(), true
-	}
-	// pass 2: contents
-	var terms2 []string
-	var strElems []string
-	type sliceInfo struct {
-		ref, off, ln, cp int64
-	}
-	sinfo := map[string]sliceInfo{}
+	b.resolveStrings()
 	for _, p := range c.replayParams {
-		switch p.V.K {
-		case kSlice:
-			ref, _ := intOf(p.V.Ref)
-			off, _ := intOf(p.V.Off)
-			ln, ok1 := intOf(p.V.Len)
-			cp, ok2 := intOf(p.V.Cap)
-			if !ok1 || !ok2 || cp > maxReplayElems {
-				return map[string]interface{}{"confirmed": false, "reason": fmt.Sprintf("slice %s too large to build (cap %v)", p.Name, vals[p.V.Cap])}
-			}
-			sinfo[p.Name] = sliceInfo{ref, off, ln, cp}
-			if ref != 0 {
-				key := heapKey(p.V.Root, nil)
-				h := c.entryHeap(key)
-				for i := int64(0); i < cp; i++ {
-					el := sx("select", sx("select", h, p.V.Ref), add(p.V.Off, num(i)))
-					terms2 = append(terms2, el)
-					if kindOf(p.V.Root) == kStr {
-						terms2 = append(terms2, sx("slen", el))
-						strElems = append(strElems, el)
-					}
-				}
-			}
-		case kStr:
-			ln, ok1 := intOf(sx("slen", p.V.S))
-			if !ok1 || ln > maxReplayElems {
-				return map[string]interface{}{"confirmed": false, "reason": "string too large"}
-			}
-			for i := int64(0); i < ln; i++ {
-				terms2 = append(terms2, sx("sat", p.V.S, num(i)))
-			}
-		case kPtr:
-			if at, ok := pointee(p.V).Underlying().(*types.Array); ok {
-				key := heapKey(at.Elem(), nil)
-				h := c.entryHeap(key)
-				for i := int64(0); i < at.Len(); i++ {
-					terms2 = append(terms2, sx("select", sx("select", h, p.V.Ref), num(i)))
-				}
-			} else {
-				return map[string]interface{}{"confirmed": false, "reason": "pointer parameter to non-array"}
-			}
-		}
+		b.scan(p.V, p.T, 0)
 	}
-	vals2 := map[string]*sexp{}
-	if len(terms2) > 0 {
-		// the heap constants may not be declared in the prefix if never used; guard by checking the text
-		qb, _ := os.ReadFile(o.queryFile)
-		var usable []string
-		for _, t := range terms2 {
-			okT := true
-			for _, w := range strings.FieldsFunc(t, func(r rune) bool { return r == '(' || r == ')' || r == ' ' }) {
-				if strings.HasPrefix(w, "H_") && !bytes.Contains(qb, []byte("declare-const "+w+" ")) && !bytes.Contains(qb, []byte("define-fun "+w+" ")) {
-					okT = false
-				}
-			}
-			if okT {
-				usable = append(usable, t)
-			}
-		}
-		if len(usable) > 0 {
-			v2, ok := getValues(o.queryFile, pins, usable, dir, name+".2")
-			if ok {
-				vals2 = v2
-			}
-		}
-	}
-	// pass 3: characters of string elements (strings are abstract values in
-	// the model: equal abstract values must become equal Go strings)
-	strOf := map[string]string{}
-	if len(strElems) > 0 {
-		var terms3 []string
-		for _, el := range strElems {
-			if n, ok := sexpInt(vals2[sx("slen", el)]); ok && n.IsInt64() && n.Int64() <= 64 {
-				for j := int64(0); j < n.Int64(); j++ {
-					terms3 = append(terms3, sx("sat", el, num(j)))
-				}
-			}
-		}
-		pins2 := append([]string{}, pins...)
-		for t, v := range vals2 {
-			if !strings.Contains(v.String(), "!val!") {
-				pins2 = append(pins2, eq(t, v.String()))
-			}
-		}
-		vals3 := map[string]*sexp{}
-		if len(terms3) > 0 {
-			if v3, ok := getValues(o.queryFile, pins2, terms3, dir, name+".3"); ok {
-				vals3 = v3
-			}
-		}
-		byAbs := map[string]string{}
-		content := map[string]string{}
-		collide := false
-		for _, el := range strElems {
-			abs := ""
-			if v, ok := vals2[el]; ok {
-				abs = v.String()
-			}
-			var bs []byte
-			if n, ok := sexpInt(vals2[sx("slen", el)]); ok && n.IsInt64() && n.Int64() <= 64 {
-				for j := int64(0); j < n.Int64(); j++ {
-					ch := byte('a')
-					if cv, ok := sexpInt(vals3[sx("sat", el, num(j))]); ok && cv.IsInt64() {
-						ch = byte(cv.Int64())
-					}
-					bs = append(bs, ch)
-				}
-			}
-			if prev, ok := byAbs[abs]; ok && prev != string(bs) {
-				collide = true
-			}
-			byAbs[abs] = string(bs)
-			for a2, c2 := range byAbs {
-				if a2 != abs && c2 == string(bs) {
-					collide = true
-				}
-			}
-			content[el] = string(bs)
-		}
-		for _, el := range strElems {
-			if collide {
-				abs := "?"
-				if v, ok := vals2[el]; ok {
-					abs = v.String()
-				}
-				strOf[el] = "v_" + sanitize(abs)
-			} else {
-				strOf[el] = content[el]
-			}
-		}
-	}
-	elem := func(t string) string {
-		if s, ok := strOf[t]; ok {
-			return fmt.Sprintf("%q", s)
-		}
-		if v, ok := vals2[t]; ok {
-			if n, ok := sexpInt(v); ok {
-				return n.String()
-			}
-		}
-		return "0"
-	}
-	// build the test
-	var body strings.Builder
 	var args []string
-	inputs := map[string]interface{}{}
-	qual := func(t types.Type) string {
-		return types.TypeString(t, func(p *types.Package) string {
-			if p == fn.Pkg.Pkg {
-				return ""
-			}
-			return p.Name()
-		})
-	}
-	backing := map[int64]string{}
 	for _, p := range c.replayParams {
 		vn := "a_" + sanitize(p.Name)
 		switch p.V.K {
-		case kInt:
-			n, _ := sexpInt(vals[p.V.S])
-			if n == nil {
-				n = big.NewInt(0)
-			}
-			fmt.Fprintf(&body, "\tvar %s %s = %s\n", vn, qual(p.T), n.String())
-			inputs[p.Name] = n.String()
-		case kBool:
-			b := "false"
-			if v, ok := vals[p.V.S]; ok && v.atom == "true" {
-				b = "true"
-			}
-			fmt.Fprintf(&body, "\tvar %s %s = %s\n", vn, qual(p.T), b)
-			inputs[p.Name] = b
-		case kStr:
-			ln, _ := intOf(sx("slen", p.V.S))
-			var bs []string
-			for i := int64(0); i < ln; i++ {
-				bs = append(bs, elem(sx("sat", p.V.S, num(i))))
-			}
-			fmt.Fprintf(&body, "\tvar %s %s = %s(string([]byte{%s}))\n", vn, qual(p.T), qual(p.T), strings.Join(bs, ","))
-			inputs[p.Name] = bs
-		case kSlice:
-			si := sinfo[p.Name]
-			if si.ref == 0 {
-				fmt.Fprintf(&body, "\tvar %s %s\n", vn, qual(p.T))
-				inputs[p.Name] = nil
-				break
-			}
-			key := heapKey(p.V.Root, nil)
-			h := c.entryHeap(key)
-			var es []string
-			for i := int64(0); i < si.cp; i++ {
-				es = append(es, elem(sx("select", sx("select", h, p.V.Ref), add(p.V.Off, num(i)))))
-			}
-			bk, shared := backing[si.ref]
-			et := qual(p.V.Root)
-			if !shared {
-				// backing array covers [0, off+cap)
-				bk = "bk_" + sanitize(p.Name)
-				fmt.Fprintf(&body, "\t%s := make([]%s, %d)\n", bk, et, si.off+si.cp)
-				backing[si.ref] = bk
-			}
-			fmt.Fprintf(&body, "\tif len(%s) < %d { %s = append(%s, make([]%s, %d-len(%s))...) }\n", bk, si.off+si.cp, bk, bk, et, si.off+si.cp, bk)
-			fmt.Fprintf(&body, "\tcopy(%s[%d:], []%s{%s})\n", bk, si.off, et, strings.Join(es, ","))
-			fmt.Fprintf(&body, "\tvar %s %s = %s[%d:%d:%d]\n", vn, qual(p.T), bk, si.off, si.off+si.ln, si.off+si.cp)
-			inputs[p.Name] = map[string]interface{}{"len": si.ln, "cap": si.cp, "off": si.off, "obj": si.ref, "elems": es}
-		case kPtr:
-			at := pointee(p.V).Underlying().(*types.Array)
-			key := heapKey(at.Elem(), nil)
-			h := c.entryHeap(key)
-			var es []string
-			for i := int64(0); i < at.Len(); i++ {
-				es = append(es, elem(sx("select", sx("select", h, p.V.Ref), num(i))))
-			}
-			ref, _ := intOf(p.V.Ref)
-			if ref == 0 {
-				fmt.Fprintf(&body, "\tvar %s %s\n", vn, qual(p.T))
-			} else {
-				fmt.Fprintf(&body, "\t%s := &%s{%s}\n", vn, qual(pointee(p.V)), strings.Join(es, ","))
-			}
-			inputs[p.Name] = es
 		case kFunc, kIface, kOpaque, kMap:
-			stand := c.con.ReplayArgs[p.Name]
-			if stand == "" {
-				return map[string]interface{}{"confirmed": false, "reason": fmt.Sprintf("parameter %s needs a replay_arg stand-in", p.Name), "inputs": inputs}
-			}
-			fmt.Fprintf(&body, "\t%s := %s\n", vn, stand)
-			inputs[p.Name] = stand
+			b.stmt("%s := %s", vn, c.con.ReplayArgs[p.Name])
+			b.inputs[p.Name] = c.con.ReplayArgs[p.Name]
+		default:
+			e := b.expr(p.V, p.T, 0)
+			b.stmt("var %s %s = %s", vn, b.qual(p.T), e)
+			b.inputs[p.Name] = e
 		}
 		args = append(args, vn)
 	}
-	pkgName := fn.Pkg.Pkg.Name()
-	imports := ""
-	for _, im := range c.con.ReplayImports {
-		imports += fmt.Sprintf("\t%q\n", im)
+	if b.fail != "" {
+		return map[string]interface{}{"confirmed": false, "reason": b.fail}
 	}
+	// pins: every concrete value read back
+	var pins []string
+	for _, t := range b.terms {
+		if v, ok := b.vals[t]; ok && !strings.Contains(v.String(), "!val!") && t != "0" {
+			pins = append(pins, eq(t, v.String()))
+		}
+	}
+	for i := 0; i < len(b.strs); i++ {
+		for j := i + 1; j < len(b.strs); j++ {
+			x, y := b.vals[b.strs[i]], b.vals[b.strs[j]]
+			if x == nil || y == nil || b.strs[i] == b.strs[j] {
+				continue
+			}
+			if x.String() == y.String() {
+				pins = append(pins, eq(b.strs[i], b.strs[j]))
+			} else {
+				pins = append(pins, not(eq(b.strs[i], b.strs[j])))
+			}
+		}
+	}
+	// the call
 	call := fn.Name() + "(" + strings.Join(args, ", ") + ")"
+	if fn.Signature.Recv() != nil && len(args) > 0 {
+		call = args[0] + "." + fn.Name() + "(" + strings.Join(args[1:], ", ") + ")"
+	}
 	callStmt := "\tres := govcWrap(" + call + ")\n"
 	if fn.Signature.Results().Len() == 0 {
 		callStmt = "\t" + call + "\n\tvar res []interface{}\n"
 	}
-	src := fmt.Sprintf(`package %s
+	var outs strings.Builder
+	for i, p := range c.replayParams {
+		if p.V.K == kPtr {
+			fmt.Fprintf(&outs, "\tif %s != nil {\n\t\tfmt.Printf(\"GOVC-OUT %s %%s\\n\", govcFmt(*%s))\n\t}\n", args[i], p.Name, args[i])
+		}
+	}
+	imports := ""
+	for _, im := range c.con.ReplayImports {
+		imports += fmt.Sprintf("\t%q\n", im)
+		delete(b.imports, im)
+	}
+	var ipaths []string
+	for p := range b.imports {
+		ipaths = append(ipaths, p)
+	}
+	sort.Strings(ipaths)
+	for _, p := range ipaths {
+		if p == "fmt" || p == "reflect" || p == "testing" {
+			continue
+		}
+		imports += fmt.Sprintf("\t%s %q\n", b.imports[p], p)
+	}
+	src := fmt.Sprintf(replayTemplate, fn.Pkg.Pkg.Name(), imports, strings.Join(b.lines, "\n")+"\n", callStmt, outs.String())
+	rec := runReplayTest(fn.Pkg.Pkg.Path(), src, dir, name)
+	rec["inputs"] = b.inputs
+	out, _ := rec["output"].(string)
+	panicked := strings.Contains(out, "GOVC-REPLAY panic:")
+	returned := strings.Contains(out, "GOVC-REPLAY returned normally")
+	if !panicked && !returned {
+		rec["confirmed"] = false
+		rec["reason"] = "the replay test did not run to completion (build error or fatal error); see output"
+		return rec
+	}
+	switch o.Kind {
+	case "bounds", "nil", "div", "panic", "pre-panic", "conv":
+		rec["confirmed"] = panicked
+		if !panicked && returned {
+			rec["reason"] = "the real code returned normally on the model's input (the failed obligation is reported without a failing input)"
+		}
+	case "post":
+		rec["confirmed"] = false
+		if panicked {
+			rec["reason"] = "the real code panicked on the model's input (no result to evaluate the clause on)"
+			break
+		}
+		// pin the inputs and the observed scalar results: if the negated
+		// clause is still satisfiable the real outcome violates the clause;
+		// if it is unsatisfiable the engine's model of the code disagrees
+		// with the real execution (tool error, not a violation).
+		var obs []string
+		for _, ln := range strings.Split(out, "\n") {
+			var idx int
+			var val string
+			if n, _ := fmt.Sscanf(ln, "GOVC-RESULT %d %s", &idx, &val); n == 2 && idx < len(c.resultVals) {
+				obs = append(obs, b.observe(c.resultVals[idx], val)...)
+			}
+		}
+		_, okIn := getValues(o.queryFile, pins, []string{"0"}, dir, name+".in")
+		_, okOut := getValues(o.queryFile, append(append([]string{}, pins...), obs...), []string{"0"}, dir, name+".out")
+		rec["observed_constraints"] = obs
+		switch {
+		case okOut:
+			rec["confirmed"] = true
+			rec["reason"] = "with the inputs and the observed results fixed, the negated clause is still satisfiable: the real outcome violates the clause"
+		case okIn:
+			rec["reason"] = "ENGINE-MISMATCH: the real code's results differ from the engine's symbolic result on this input"
+			rec["engine_mismatch"] = true
+		default:
+			rec["reason"] = "the pinned model could not be re-established"
+		}
+	default:
+		rec["confirmed"] = false
+		rec["reason"] = "invariant-type obligation: inputs replayed, outcome recorded; an intermediate state cannot be observed from outside"
+	}
+	return rec
+}
+
+// observe turns one printed result into constraints on the engine's result value.
+func (b *rb) observe(rv Val, val string) []string {
+	var obs []string
+	switch {
+	case strings.HasPrefix(val, "int:") && rv.K == kInt:
+		if n, ok := new(big.Int).SetString(val[4:], 10); ok {
+			obs = append(obs, eq(rv.S, bigNum(n)))
+		}
+	case strings.HasPrefix(val, "bool:") && rv.K == kBool:
+		obs = append(obs, eq(rv.S, val[5:]))
+	case strings.HasPrefix(val, "string:") && rv.K == kStr:
+		parts := strings.SplitN(val, ":", 3)
+		if len(parts) == 3 {
+			raw, _ := hex.DecodeString(parts[2])
+			matched := false
+			want := fmt.Sprintf("%q", string(raw))
+			for _, el := range b.strs {
+				if b.strVar[el] == want {
+					obs = append(obs, eq(rv.S, el))
+					matched = true
+					break
+				}
+			}
+			if !matched {
+				obs = append(obs, eq(sx("slen", rv.S), num(int64(len(raw)))))
+				for _, el := range b.strs {
+					obs = append(obs, not(eq(rv.S, el)))
+				}
+			}
+		}
+	case val == "nil" && (rv.K == kIface || rv.K == kMap):
+		obs = append(obs, eq(rv.S, "0"))
+	case val == "nonnil" && (rv.K == kIface || rv.K == kMap):
+		obs = append(obs, not(eq(rv.S, "0")))
+	case val == "nil" && rv.K == kPtr:
+		obs = append(obs, eq(rv.Ref, "0"))
+	case val == "nonnil" && rv.K == kPtr:
+		obs = append(obs, not(eq(rv.Ref, "0")))
+	case val == "nilslice" && rv.K == kSlice:
+		obs = append(obs, eq(rv.Ref, "0"))
+	case (strings.HasPrefix(val, "bytes:") || strings.HasPrefix(val, "slice:")) && rv.K == kSlice:
+		var ln2 int
+		fmt.Sscanf(val[6:], "%d", &ln2)
+		obs = append(obs, eq(rv.Len, num(int64(ln2))), not(eq(rv.Ref, "0")))
+	}
+	return obs
+}
+
+const replayTemplate = `package %s
 
 import (
 	"fmt"
@@ -531,7 +857,7 @@ func TestGovcReplay(t *testing.T) {
 %s%s	for i, r := range res {
 		fmt.Printf("GOVC-RESULT %%d %%s\n", i, govcFmt(r))
 	}
-}
+%s}
 
 func govcWrap(rs ...interface{}) []interface{} { return rs }
 
@@ -565,115 +891,7 @@ func govcFmt(r interface{}) string {
 	}
 	return "other"
 }
-`, pkgName, imports, body.String(), callStmt)
-	rec := runReplayTest(fn.Pkg.Pkg.Path(), src, dir, name)
-	rec["inputs"] = inputs
-	out, _ := rec["output"].(string)
-	panicked := strings.Contains(out, "GOVC-REPLAY panic:")
-	returned := strings.Contains(out, "GOVC-REPLAY returned normally")
-	switch o.Kind {
-	case "bounds", "nil", "div", "panic", "pre-panic", "conv":
-		rec["confirmed"] = panicked
-		if !panicked && returned {
-			rec["reason"] = "the real code returned normally on the model's input (the failed obligation is reported without a failing input)"
-		}
-	case "post":
-		rec["confirmed"] = false
-		if panicked {
-			rec["reason"] = "the real code panicked on the model's input (no result to evaluate the clause on)"
-			break
-		}
-		// pin the inputs and the observed scalar results: if the negated
-		// clause is still satisfiable the real outcome violates the clause;
-		// if it is unsatisfiable the engine's model of the code disagrees
-		// with the real execution (tool error, not a violation).
-		var obs []string
-		for _, ln := range strings.Split(out, "\n") {
-			var idx int
-			var val string
-			if n, _ := fmt.Sscanf(ln, "GOVC-RESULT %d %s", &idx, &val); n == 2 && idx < len(c.resultVals) {
-				rv := c.resultVals[idx]
-				switch {
-				case strings.HasPrefix(val, "int:") && rv.K == kInt:
-					n, ok := new(big.Int).SetString(val[4:], 10)
-					if ok {
-						obs = append(obs, eq(rv.S, bigNum(n)))
-					}
-				case strings.HasPrefix(val, "string:") && rv.K == kStr:
-					// identify the observed string with an input string element when possible
-					parts := strings.SplitN(val, ":", 3)
-					if len(parts) == 3 {
-						raw, _ := hex.DecodeString(parts[2])
-						matched := false
-						for _, el := range strElems {
-							if strOf[el] == string(raw) {
-								obs = append(obs, eq(rv.S, el))
-								matched = true
-								break
-							}
-						}
-						if !matched {
-							obs = append(obs, eq(sx("slen", rv.S), num(int64(len(raw)))))
-							for _, el := range strElems {
-								obs = append(obs, not(eq(rv.S, el)))
-							}
-						}
-					}
-				case strings.HasPrefix(val, "bool:") && rv.K == kBool:
-					obs = append(obs, eq(rv.S, val[5:]))
-				case val == "nil" && (rv.K == kIface || rv.K == kMap):
-					obs = append(obs, eq(rv.S, "0"))
-				case val == "nonnil" && (rv.K == kIface || rv.K == kMap):
-					obs = append(obs, not(eq(rv.S, "0")))
-				case val == "nil" && rv.K == kPtr:
-					obs = append(obs, eq(rv.Ref, "0"))
-				case val == "nilslice" && rv.K == kSlice:
-					obs = append(obs, eq(rv.Ref, "0"))
-				case (strings.HasPrefix(val, "bytes:") || strings.HasPrefix(val, "slice:")) && rv.K == kSlice:
-					var ln2 int
-					fmt.Sscanf(val[6:], "%d", &ln2)
-					obs = append(obs, eq(rv.Len, num(int64(ln2))))
-				}
-			}
-		}
-		pins2 := append([]string{}, pins...)
-		for t, v := range vals2 {
-			if !strings.Contains(v.String(), "!val!") {
-				pins2 = append(pins2, eq(t, v.String()))
-			}
-		}
-		for i := 0; i < len(strElems); i++ {
-			for j := i + 1; j < len(strElems); j++ {
-				a, b := vals2[strElems[i]], vals2[strElems[j]]
-				if a == nil || b == nil {
-					continue
-				}
-				if a.String() == b.String() {
-					pins2 = append(pins2, eq(strElems[i], strElems[j]))
-				} else {
-					pins2 = append(pins2, not(eq(strElems[i], strElems[j])))
-				}
-			}
-		}
-		_, okIn := getValues(o.queryFile, pins2, []string{"0"}, dir, name+".in")
-		_, okOut := getValues(o.queryFile, append(pins2, obs...), []string{"0"}, dir, name+".out")
-		rec["observed_constraints"] = obs
-		switch {
-		case okOut:
-			rec["confirmed"] = true
-			rec["reason"] = "with the inputs and the observed results fixed, the negated clause is still satisfiable: the real outcome violates the clause"
-		case okIn:
-			rec["reason"] = "ENGINE-MISMATCH: the real code's results differ from the engine's symbolic result on this input"
-			rec["engine_mismatch"] = true
-		default:
-			rec["reason"] = "the pinned model could not be re-established"
-		}
-	default:
-		rec["confirmed"] = false
-		rec["reason"] = "invariant-type obligation: inputs replayed, outcome recorded; an intermediate state cannot be observed from outside"
-	}
-	return rec
-}
+`
 
 func runReplayTest(pkgPath, src, dir, name string) map[string]interface{} {
 	rel := strings.TrimPrefix(strings.TrimPrefix(pkgPath, modPath), "/")
@@ -724,6 +942,16 @@ func replayFile(path string) int {
 	if src == "" {
 		fmt.Println("no test source recorded:", rp["reason"])
 		return 0
+	}
+	var keys []string
+	if in, ok := rp["inputs"].(map[string]interface{}); ok {
+		for k := range in {
+			keys = append(keys, k)
+		}
+		sort.Strings(keys)
+		for _, k := range keys {
+			fmt.Printf("  input %s = %v\n", k, in[k])
+		}
 	}
 	dir := filepath.Join(filepath.Dir(path), "rerun")
 	os.MkdirAll(dir, 0o755)
